@@ -117,7 +117,7 @@ fn pruning_cases<T: KS>(out: &mut Out, rng: &mut Rng, full: &[(T, (Exts, Pay))],
             out.case("f3.remove_censored", l(vec![st.clone(), before.clone()]), opt(after.clone()));
             match after {
                 Some(a) => out.case("chk.c03.pruned", l(vec![st.clone(), before, a]), b(true)),
-                None => out.case("chk.c03.pruned", l(vec![]), V::Bot),
+                None => out.case("s.no_panic", l(vec![nu(901), nu(0), nu(out.lines as usize)]), V::Bot),
             }
         } else {
             // all_kmers: variant 1 = a superset of valid inside the real table (the real use); variant 2 = arbitrary
@@ -139,7 +139,7 @@ fn pruning_cases<T: KS>(out: &mut Out, rng: &mut Rng, full: &[(T, (Exts, Pay))],
             out.case("f3.remove_censored_sharded", l(vec![st.clone(), before.clone(), allv.clone()]), opt(after.clone()));
             match after {
                 Some(a) => out.case("chk.c03.pruned_sharded", l(vec![st.clone(), before, allv, a]), b(true)),
-                None => out.case("chk.c03.pruned_sharded", l(vec![]), V::Bot),
+                None => out.case("s.no_panic", l(vec![nu(902), nu(0), nu(out.lines as usize)]), V::Bot),
             }
         }
     }
@@ -184,7 +184,7 @@ fn pruning_pipeline_case<T: KS>(out: &mut Out, rng: &mut Rng, reads: &[Vec<u8>],
     }));
     match r2.map(|v| l(v.iter().map(|x| n((x.1).0.val)).collect())) {
         Some(a) => out.case("chk.c03.pruned_sharded", l(vec![st, before, allv, a]), b(true)),
-        None => out.case("chk.c03.pruned_sharded", l(vec![]), V::Bot),
+        None => out.case("s.no_panic", l(vec![nu(903), nu(0), nu(out.lines as usize)]), V::Bot),
     }
 }
 
@@ -288,7 +288,7 @@ pub fn cases<T: KS + Send + Sync>(out: &mut Out, rng0: &mut Rng, tier: &Tier) {
         let base = match guard(std::panic::AssertUnwindSafe(move || compress_kmers_with_hash(stranded, sp, hh))) {
             Some(x) => x,
             None => {
-                out.case("chk.c03.graph_ok", l(vec![]), V::Bot);
+                out.case("s.no_panic", l(vec![nu(904), nu(0), nu(out.lines as usize)]), V::Bot);
                 continue;
             }
         };
@@ -395,10 +395,10 @@ pub fn cases<T: KS + Send + Sync>(out: &mut Out, rng0: &mut Rng, tier: &Tier) {
             out.case("g3.seq_of_path", l(vec![nu(k), nodes.clone(), path_v(p)]), opt(sq.as_ref().map(|s| dna(s))));
             match sq {
                 Some(s) => out.case("chk.c03.maxpath", l(vec![nu(k), st.clone(), nodes.clone(), path_v(p), dna(&s)]), b(true)),
-                None => out.case("chk.c03.maxpath", l(vec![]), V::Bot),
+                None => out.case("s.no_panic", l(vec![nu(905), nu(0), nu(out.lines as usize)]), V::Bot),
             }
         } else {
-            out.case("chk.c03.maxpath", l(vec![]), V::Bot);
+            out.case("s.no_panic", l(vec![nu(906), nu(0), nu(out.lines as usize)]), V::Bot);
         }
         // ---- max_path_beam (the second best-path query) for a few beam widths: path, its sequence, the same checker
         for beam in [1usize, 1 + rng.below(3), 4 + rng.below(6)].iter().cloned() {
@@ -412,7 +412,7 @@ pub fn cases<T: KS + Send + Sync>(out: &mut Out, rng0: &mut Rng, tier: &Tier) {
                 let sq = guard(std::panic::AssertUnwindSafe(move || gr.sequence_of_path(p.iter()).to_bytes()));
                 match sq {
                     Some(s) => out.case("chk.c03.maxpath", l(vec![nu(k), st.clone(), nodes.clone(), path_v(p), dna(&s)]), b(true)),
-                    None => out.case("chk.c03.maxpath", l(vec![]), V::Bot),
+                    None => out.case("s.no_panic", l(vec![nu(907), nu(0), nu(out.lines as usize)]), V::Bot),
                 }
             }
         }
@@ -446,7 +446,7 @@ pub fn cases<T: KS + Send + Sync>(out: &mut Out, rng0: &mut Rng, tier: &Tier) {
             out.case("g3.seq_of_path", l(vec![nu(k), nodes.clone(), path_v(&p)]), opt(sq.as_ref().map(|s| dna(s))));
             match sq {
                 Some(s) => out.case("chk.c03.walk", l(vec![nu(k), st.clone(), nodes.clone(), path_v(&p), dna(&s)]), b(true)),
-                None => out.case("chk.c03.walk", l(vec![]), V::Bot),
+                None => out.case("s.no_panic", l(vec![nu(908), nu(0), nu(out.lines as usize)]), V::Bot),
             }
         }
     }
